@@ -277,9 +277,6 @@ func (run *Run) StressRound(seed uint64, round, goroutines, calls int, withSenBy
 					What: fmt.Sprintf("goroutine %d call %d (%s): concurrently %s — alone %s", g, i, sc.Call.Op, clip(conc[g].texts[i]), clip(seq.texts[i])),
 					Replay: map[string]any{"seed": seed, "round": round, "goroutines": goroutines, "calls": calls, "sen_bytes": withSenBytes,
 						"goroutine": g, "index": i, "list": lists[g]}}
-				if sc.Subject == "pool" && sc.Call.Op == "sen.Bytes" && lib.HasKnown(run.Known, "C08-sen-bytes-pooled") {
-					fd.Kind, fd.KnownID = "known", "C08-sen-bytes-pooled"
-				}
 				emit(fd)
 			}
 		}
@@ -292,9 +289,6 @@ func (run *Run) StressRound(seed uint64, round, goroutines, calls int, withSenBy
 				What: fmt.Sprintf("goroutine %d call %d: %s", g, idx, parts[1]),
 				Replay: map[string]any{"seed": seed, "round": round, "goroutines": goroutines, "calls": calls, "sen_bytes": withSenBytes,
 					"goroutine": g, "index": idx, "list": lists[g]}}
-			if sc.Subject == "pool" && sc.Call.Op == "sen.Bytes" && lib.HasKnown(run.Known, "C08-sen-bytes-pooled") {
-				fd.Kind, fd.KnownID = "known", "C08-sen-bytes-pooled"
-			}
 			emit(fd)
 		}
 	}
@@ -353,9 +347,6 @@ func (run *Run) Witness(emit func(lib.Finding)) int {
 			fd := lib.Finding{Kind: "violation", Class: "overwritten-by-other-goroutine:" + a.name,
 				What:   fmt.Sprintf("%s: a value returned to goroutine A was written by goroutine B's call of the same function: %s", a.name, overwritten),
 				Replay: map[string]any{"scenario": "witness", "api": a.name, "schedule": "A: r := api(x); B: api(y) x3; A: inspect r", "gomaxprocs": 1}}
-			if a.name == "sen.Bytes" && lib.HasKnown(run.Known, "C08-sen-bytes-pooled") {
-				fd.Kind, fd.KnownID = "known", "C08-sen-bytes-pooled"
-			}
 			emit(fd)
 		}
 	}
@@ -406,16 +397,16 @@ func (run *Run) RaceStep(emit func(lib.Finding)) {
 		return nil
 	}
 	if err := copyDir("lib"); err != nil {
-		rep.Notes = append(rep.Notes, "race sub-step skipped: "+err.Error())
+		run.raceUnavailable(emit, "the scratch module for go test -race could not be set up: "+err.Error())
 		return
 	}
 	if err := copyDir("reuse"); err != nil {
-		rep.Notes = append(rep.Notes, "race sub-step skipped: "+err.Error())
+		run.raceUnavailable(emit, "the scratch module for go test -race could not be set up: "+err.Error())
 		return
 	}
 	gomod := "module verif/harness\n\ngo 1.23\n\nrequire github.com/ohler55/ojg v0.0.0\n\nreplace github.com/ohler55/ojg => " + run.Repo + "\n"
 	if err := os.WriteFile(filepath.Join(dir, "go.mod"), []byte(gomod), 0o644); err != nil {
-		rep.Notes = append(rep.Notes, "race sub-step skipped: "+err.Error())
+		run.raceUnavailable(emit, "the scratch module for go test -race could not be set up: "+err.Error())
 		return
 	}
 	if gs, err := os.ReadFile(filepath.Join(run.Repo, "go.sum")); err == nil {
@@ -427,24 +418,41 @@ func (run *Run) RaceStep(emit func(lib.Finding)) {
 	}
 	// checkptr (switched on by -race) stops the process at the first unsafe pointer computation of alt's
 	// field accessors (alt.valInt …): off, so that the race detector gets to see the run
-	cmd := exec.Command("go", "test", "-race", "-gcflags=all=-d=checkptr=0", "-count=1", "-v", "-run", "^TestRace", "./reuse")
-	cmd.Dir = dir
-	cmd.Env = append(os.Environ(), "GOFLAGS=-mod=mod", "GOPROXY=off", "GOSUMDB=off", "GOTOOLCHAIN=local", "CGO_ENABLED=1",
-		"GORACE=halt_on_error=0", fmt.Sprintf("VERIF_RACE_SEED=%d", run.Seed), "VERIF_RACE_ROUNDS="+rounds)
-	t0 := time.Now()
-	outB, err := cmd.CombinedOutput()
-	out := string(outB)
-	if !strings.Contains(out, "=== RUN") {
-		// could not build or start: the detector is not available here
-		msg := strings.TrimSpace(out)
-		if len(msg) > 600 {
-			msg = msg[len(msg)-600:]
-		}
-		rep.Notes = append(rep.Notes, fmt.Sprintf("race sub-step unavailable (go test -race did not run: %v): %s", err, msg))
-		rep.Count("c08.race.unavailable", 1)
-		return
+	runOnce := func() (string, error, float64) {
+		cmd := exec.Command("go", "test", "-race", "-gcflags=all=-d=checkptr=0", "-count=1", "-v", "-run", "^TestRace", "./reuse")
+		cmd.Dir = dir
+		cmd.Env = append(os.Environ(), "GOFLAGS=-mod=mod", "GOPROXY=off", "GOSUMDB=off", "GOTOOLCHAIN=local", "CGO_ENABLED=1",
+			"GORACE=halt_on_error=0", fmt.Sprintf("VERIF_RACE_SEED=%d", run.Seed), "VERIF_RACE_ROUNDS="+rounds)
+		t0 := time.Now()
+		outB, err := cmd.CombinedOutput()
+		return string(outB), err, time.Since(t0).Seconds()
 	}
-	rep.Notes = append(rep.Notes, fmt.Sprintf("race sub-step: go test -race ran in %.1fs", time.Since(t0).Seconds()))
+	out, err, secs := runOnce()
+	if !strings.Contains(out, "=== RUN") {
+		if raceUnsupported(out) {
+			// the toolchain says the detector does not exist for this platform: nothing to retry
+			rep.Notes = append(rep.Notes, "race_step: unsupported — the Go toolchain reports that the race detector is not supported on this platform: "+lastLines(out, 300)+
+				"; 'no data race' is then NOT decided by this run (stress comparison and deterministic oracles only)")
+			rep.Count("c08.race_step.unsupported", 1)
+			return
+		}
+		first := lastLines(out, 400)
+		out, err, secs = runOnce() // once more: a busy machine, a build cache being written by another check
+		if !strings.Contains(out, "=== RUN") {
+			run.raceUnavailable(emit, fmt.Sprintf("go test -race did not build or start, twice (%v). First attempt: %s — second attempt: %s", err, first, lastLines(out, 400)))
+			return
+		}
+		rep.Notes = append(rep.Notes, "race sub-step: the first go test -race attempt did not start ("+first+"); the second one ran")
+	}
+	nRounds := 6
+	fmt.Sscanf(rounds, "%d", &nRounds)
+	rep.Notes = append(rep.Notes, fmt.Sprintf("race_step: ran — go test -race in %.1fs: TestRaceStress %d rounds x 8 goroutines x 30 calls (%d ops), "+
+		"TestRaceColdCaches %d rounds x 16 goroutines, TestRaceSenBytes 64 goroutines x 600 calls", secs, nRounds, nRounds*8*30, nRounds*3))
+	rep.Count("c08.race_step.ran", 1)
+	rep.Count("c08.race_step.stress_goroutines", 8)
+	rep.Count("c08.race_step.stress_ops", int64(nRounds*8*30))
+	rep.Count("c08.race_step.coldcache_ops", int64(nRounds*3*16))
+	rep.Count("c08.race_step.pooled_bytes_ops", 64*600)
 	// split by test
 	segs := strings.Split(out, "=== RUN ")
 	for _, seg := range segs[1:] {
@@ -511,11 +519,34 @@ func (run *Run) RaceStep(emit func(lib.Finding)) {
 		fd := lib.Finding{Kind: "violation", Class: class, What: what,
 			Replay: map[string]any{"scenario": "race", "test": name, "seed": run.Seed, "rounds": rounds,
 				"cmd": "cd <scratch module with harness/lib and harness/reuse> && CGO_ENABLED=1 go test -race -run '^" + name + "$' ./reuse"}}
-		if name == "TestRaceSenBytes" && lib.HasKnown(run.Known, "C08-sen-bytes-pooled") {
-			fd.Kind, fd.KnownID = "known", "C08-sen-bytes-pooled"
-		}
 		emit(fd)
 	}
+}
+
+// raceUnsupported: the toolchain itself says there is no race detector for this platform.
+func raceUnsupported(out string) bool {
+	return strings.Contains(out, "-race is only supported on") || strings.Contains(out, "race detector not supported") ||
+		strings.Contains(out, "-race is not supported on")
+}
+
+func lastLines(s string, n int) string {
+	s = strings.TrimSpace(s)
+	if len(s) > n {
+		s = "…" + s[len(s)-n:]
+	}
+	return strings.Join(strings.Fields(s), " ")
+}
+
+// raceUnavailable: the race detector is the only thing in this check that decides "no data race occurs"; if it
+// cannot run, the property is no longer shown to hold on this tree and the run must not be quiet.
+func (run *Run) raceUnavailable(emit func(lib.Finding), why string) {
+	run.Rep.Count("c08.race_step.unavailable", 1)
+	run.Rep.Notes = append(run.Rep.Notes, "race_step: unavailable — "+why)
+	emit(lib.Finding{Kind: "violation", Class: "race-step-unavailable",
+		What: "C08 is no longer shown to hold on this tree (no failing input found): the Go race detector run, which is what decides 'no data race occurs' " +
+			"(the Lean theorems are about an atomic-step model), could not be carried out: " + why,
+		Replay: map[string]any{"scenario": "race", "no_failing_input_found": true,
+			"cmd": "cd <scratch module with harness/lib and harness/reuse> && CGO_ENABLED=1 go test -race -gcflags=all=-d=checkptr=0 -run '^TestRace' ./reuse"}})
 }
 
 // RunC08Child is the in-process part of the run: the stress rounds. It runs
@@ -535,6 +566,7 @@ func (run *Run) RunC08Child() {
 		rep.Count("c08.stress.calls", int64(ev))
 	}
 	rep.Count("c08.stress.goroutines", int64(goroutines))
+	rep.Notes = append(rep.Notes, fmt.Sprintf("stress: %d rounds x %d goroutines x %d calls, each compared with the same list run alone", rounds, goroutines, calls))
 	rep.Sample(map[string]any{"round": 0, "goroutine": 0, "first_calls": GenLists(run.Seed, 0, goroutines, 3, true)[0]})
 }
 
